@@ -20,7 +20,7 @@ def run(prop, tier, seed):
     for j, c in enumerate(progs):
         for i, d in enumerate(d_tasks):
             if tier != "quick" or (i + j) % 3 == 0:
-                extra = {"maxsteps": 60000, "quarantine": True}
+                extra = {"maxsteps": 60000, "quarantine": (i + j) % 2 == 0}
                 if (i + j) % 6 == 0:
                     extra["trace"] = 8
                 cases.append(schedlib.with_drive(c, i, d, extra))
